@@ -265,7 +265,6 @@ package utils
 // table lemma gf/fields (every field the library constructs, compared exhaustively with
 // carry-less arithmetic); the body (two table-filling loops) is not verified here.
 //@ func NewGaloisField
-//@   abstract
 //@   trusted
 //@   requires fieldSize >= 2
 //@   ensures result != nil && fresh(result) && result.Size == fieldSize && result.Base == b
